@@ -746,6 +746,14 @@ thread_local! {
 pub fn set_aux_corruption(c: Option<(usize, usize)>) {
     AUX_CORRUPT.with(|x| x.set(c));
 }
+thread_local! {
+    /// auxiliary column that the prover rescales as a whole (x2 for running products, +1 for running
+    /// sums): every transition constraint still holds, only the boundary assertion on the column fails
+    static AUX_RESCALE: std::cell::Cell<Option<usize>> = const { std::cell::Cell::new(None) };
+}
+pub fn set_aux_rescaling(c: Option<usize>) {
+    AUX_RESCALE.with(|x| x.set(c));
+}
 
 /// auxiliary segment as the honest prover builds it
 pub fn build_aux<B: Fld, E: FieldElement<BaseField = B>>(shape: &Shape, main: &ColMatrix<B>, rands: &[E], lagrange: Option<Vec<E>>) -> ColMatrix<E> {
@@ -760,6 +768,13 @@ pub fn build_aux<B: Fld, E: FieldElement<BaseField = B>>(shape: &Shape, main: &C
             col[i + 1] = if a.rands > 0 { col[i] * (m + rands[j % a.rands]) } else { col[i] + m };
         }
         cols.push(col);
+    }
+    if let Some(c) = AUX_RESCALE.with(|x| x.get()) {
+        if c < a.cols {
+            for v in cols[c].iter_mut() {
+                *v = if a.rands > 0 { *v + *v } else { *v + E::ONE };
+            }
+        }
     }
     if let Some((c, r)) = AUX_CORRUPT.with(|x| x.get()) {
         if c < a.cols && r < n {
